@@ -13,7 +13,7 @@ import (
 
 // C09 — history navigation and search are faithful and non-destructive.
 
-const c09Rule = "history contents from a pool (empty, one entry, duplicates, entries that are prefixes of each other, multi-line, multi-byte, padded) x an in-progress buffer (possibly empty, cursor possibly moved back) x 5-40 steps from {previous/next-history, beginning/end-of-history, up/down-line-or-history, history-search-backward/forward, history-substring-search-backward/forward, beginning/end-of-buffer-or-history} and incremental search sessions (C-r / C-s, pattern keys, repeats, ended by CR, ESC or C-g), biased to overshoot both ends; one command per read; oracle: (a) walk index model run as a SET of possible positions (end-of-history may mean slot 0 or 1; *-line-or-history and *-buffer-or-history may move inside the buffer instead): the buffer shown must equal slot[p] for a possible p; (b) after a prefix / substring search the buffer is the in-progress text or a stored entry that has / contains the search string (text before the cursor of the buffer shown when pressed, or of the in-progress line); after an incremental search the buffer is the in-progress text or an entry matching the typed pattern (case-insensitively when it has no upper-case letter); (c) no panic and no 'history error' hint at either end; (d) afterwards the source holds exactly its prior entries (plus the accepted line per C08); non-trivial = walks past an end, or returns to slot 0 with a non-empty in-progress buffer after leaving it, or a search with >= 2 matching entries; distinct = hash of the case"
+const c09Rule = "history contents from a pool (empty, one entry, duplicates, entries that are prefixes of each other, multi-line, multi-byte, padded, entries and search texts with regular-expression metacharacters) x an in-progress buffer (possibly empty, cursor possibly moved back) x 5-40 steps from {previous/next-history, beginning/end-of-history, up/down-line-or-history, history-search-backward/forward, history-substring-search-backward/forward, beginning/end-of-buffer-or-history} and incremental search sessions (C-r / C-s, pattern keys, repeats, ended by CR, ESC or C-g), biased to overshoot both ends; one command per read; oracle: (a) walk index model run as a SET of possible positions (end-of-history may mean slot 0 or 1; *-line-or-history and *-buffer-or-history may move inside the buffer instead): the buffer shown must equal slot[p] for a possible p; (b) after a prefix / substring search the buffer is the in-progress text or a stored entry that has / contains the search string (text before the cursor of the buffer shown when pressed, or of the in-progress line); after an incremental search the buffer is the in-progress text or an entry matching the typed pattern (case-insensitively when it has no upper-case letter); (c) no panic and no 'history error' hint at either end; (d) afterwards the source holds exactly its prior entries (plus the accepted line per C08); non-trivial = walks past an end, or returns to slot 0 with a non-empty in-progress buffer after leaving it, or a search with >= 2 matching entries; distinct = hash of the case"
 
 type C09Case struct {
 	Mode  string   `json:"mode"`
@@ -43,12 +43,14 @@ var c09Hists = [][]string{
 	{"日本語 コマンド", "é accent", "한글 😀"},
 	{"echo one", "Echo Two", "ls", "echo three", "make echo"},
 	{" leading", "trailing ", "in  side"},
+	// search text is literal: entries that only match it when read as a regular expression
+	{"make abc", "a.c", "sleep 125", "sleep 1.5", "wc -l *.go", "ls x.go", "a+b", "aab", "f(x)", "fx", "[ab]", "a"},
 }
 
 func genC09(t *rapid.T) *C09Case {
 	c := &C09Case{Mode: rapid.SampledFrom([]string{"emacs", "emacs", "vi"}).Draw(t, "mode")}
 	c.Hist = append([]string{}, rapid.SampledFrom(c09Hists).Draw(t, "hist")...)
-	c.Text = rapid.SampledFrom([]string{"", "", "e", "ec", "echo", "a", "ab", "l", "x", "日", "du", "echo hello", "zzz", "E"}).Draw(t, "text")
+	c.Text = rapid.SampledFrom([]string{"", "", "e", "ec", "echo", "a", "ab", "l", "x", "日", "du", "echo hello", "zzz", "E", "a.c", "1.5", "*.go", "a+b", "f(x", "[ab]", ".", "a."}).Draw(t, "text")
 	c.Back = rapid.IntRange(0, len([]rune(c.Text))).Draw(t, "back")
 	n := rapid.IntRange(5, 40).Draw(t, "nsteps")
 
